@@ -11,6 +11,10 @@ class UserExc(Exception):
     pass
 
 
+class BaseExc(BaseException):  # like KeyboardInterrupt / SystemExit: not an Exception
+    pass
+
+
 def concrete(v, salt):
     return {"none": None, "mpl": "matplotlib", "plotly": "plotly"}.get(v, BAD[salt % len(BAD)]) if v != "bad" else BAD[salt % len(BAD)]
 
@@ -27,6 +31,7 @@ def run_prog(prog, avail):
     cfg.find_spec = (lambda name: object()) if avail else (lambda name: None)
     trace, events = [], []
     counter = itertools.count()
+    rng_base = [BaseExc, KeyboardInterrupt, SystemExit, GeneratorExit]
 
     def state():
         d = get_config()
@@ -58,6 +63,9 @@ def run_prog(prog, avail):
         elif t == "raise":
             trace.append(state())
             raise UserExc()
+        elif t == "raiseBase":
+            trace.append(state())
+            raise rng_base[next(counter) % len(rng_base)]()
         elif t == "block":
             k = next(counter)
             before = state()
@@ -75,6 +83,13 @@ def run_prog(prog, avail):
                 go(p["body"])
             except Exception:
                 pass
+            finally:
+                trace.append(state())
+        elif t == "catchAll":
+            try:
+                go(p["body"])
+            except BaseException:
+                pass
             trace.append(state())
 
     out = "ok"
@@ -82,6 +97,8 @@ def run_prog(prog, avail):
         go(prog)
     except UserExc:
         out = "UserExc"
+    except (BaseExc, KeyboardInterrupt, SystemExit, GeneratorExit):
+        out = "BaseExc"
     except ValueError:
         out = "ValueError"
     except ModuleNotFoundError:
@@ -101,10 +118,12 @@ def gen_tree(rng, depth, budget):
         budget[0] -= 1
         if r < 0.5:
             return {"t": "set", "v": rng.choice(VALS), "salt": rng.randint(0, 20)}
-        if r < 0.7:
+        if r < 0.65:
             return {"t": "get"}
-        if r < 0.9:
+        if r < 0.82:
             return {"t": "raise"}
+        if r < 0.93:
+            return {"t": "raiseBase"}
         return {"t": "skip"}
     r = rng.random()
     budget[0] -= 1
@@ -113,7 +132,7 @@ def gen_tree(rng, depth, budget):
     if r < 0.65:
         return {"t": "block", "v": rng.choice(VALS), "salt": rng.randint(0, 20), "body": gen_tree(rng, depth - 1, budget)}
     if r < 0.8:
-        return {"t": "catch", "body": gen_tree(rng, depth - 1, budget)}
+        return {"t": rng.choice(["catch", "catch", "catchAll"]), "body": gen_tree(rng, depth - 1, budget)}
     return gen_tree(rng, 0, budget)
 
 
@@ -124,12 +143,14 @@ def all_trees(size):
             yield {"t": "set", "v": v, "salt": 0}
         yield {"t": "get"}
         yield {"t": "raise"}
+        yield {"t": "raiseBase"}
         return
     for v in VALS:
         for b in all_trees(size - 1):
             yield {"t": "block", "v": v, "salt": 0, "body": b}
     for b in all_trees(size - 1):
         yield {"t": "catch", "body": b}
+        yield {"t": "catchAll", "body": b}
     for k in range(1, size - 1):
         for a in all_trees(k):
             for b in all_trees(size - 1 - k):
@@ -142,7 +163,7 @@ def count_blocks(p):
         return count_blocks(p["a"]) + count_blocks(p["b"])
     if t == "block":
         return 1 + count_blocks(p["body"])
-    if t == "catch":
+    if t in ("catch", "catchAll"):
         return count_blocks(p["body"])
     return 0
 
@@ -151,7 +172,8 @@ class C18(Prop):
     id = "C18"
     unique_answer = True
     rule = (
-        "program trees over set(None|'matplotlib'|'plotly'|invalid) / get-and-mutate / raise / with-block / try-except, executed "
+        "program trees over set(None|'matplotlib'|'plotly'|invalid) / get-and-mutate / raise (an Exception, or a BaseException "
+        "such as KeyboardInterrupt / SystemExit / GeneratorExit) / with-block / try-except Exception / try-except BaseException, executed "
         "with real `with` statements, get_config() logged after every step; both values of plotly's availability (find_spec "
         "patched). Streams: 'small' = every tree with <=3 nodes (quick) / <=4 nodes (thorough); 'random' = random trees of depth "
         "<=6, <=40 nodes. Compared with the model on the full observation trace, outcome and final state; oracle on the "
@@ -220,7 +242,7 @@ class C18(Prop):
                     yield {**p, "a": a}
                 for b in subs(p["b"]):
                     yield {**p, "b": b}
-            elif t in ("block", "catch"):
+            elif t in ("block", "catch", "catchAll"):
                 yield p["body"]
                 for b in subs(p["body"]):
                     yield {**p, "body": b}
